@@ -36,19 +36,21 @@ type Inconclusive struct{ Why string }
 
 // Prop is one property's check.
 type Prop struct {
-	ID     string
-	Level  string // exploration | fault_enumeration
-	Rule   string // how cases are generated and what makes one non-trivial
-	Quick  int    // trials in the quick tier
-	Thorough int  // trials in the thorough tier
+	ID       string
+	Level    string // exploration | fault_enumeration
+	Rule     string // how cases are generated and what makes one non-trivial
+	Quick    int    // trials in the quick tier
+	Thorough int    // trials in the thorough tier
 	// Gen builds trial number ord (nil = nothing to do for this ordinal).
 	Gen func(r *Rand, tier string, ord int) *Trial
 	// Check executes the trial. It reports discards and probes through ctx.
 	Check func(t *Trial, ctx *Ctx) *Failure
-	// Shrink proposes simpler variants of the trial's case (runs are kept).
-	Shrink func(t *Trial) []*Trial
+	// Shrink proposes simpler variants of the trial's case (runs are kept); nil = genericShrink.
+	Shrink        func(t *Trial) []*Trial
+	NoShrink      bool // the trial carries derived state that file-level reducers would desynchronise
+	ShrinkColumns bool // alignment columns may be dropped from all FASTA files at once
 	// Required probes: names that must be > 0 over a whole batch, else exit 2.
-	Required []string
+	Required    []string
 	Assumptions []string
 }
 
@@ -58,34 +60,34 @@ func register(p *Prop) { props[p.ID] = p }
 
 // Ctx collects coverage while a trial runs.
 type Ctx struct {
-	Digest    uint64 // running hash of everything observable about the runs executed (determinism self-test)
-	St        *Stats
-	nontrivial bool
-	quiet     bool
+	Digest      uint64 // running hash of everything observable about the runs executed (determinism self-test)
+	St          *Stats
+	nontrivial  bool
+	quiet       bool
 	lastResults []*Result
 }
 
 // Stats is the mergeable coverage record of a batch.
 type Stats struct {
-	Trials        int            `json:"trials"`
-	Evaluations   int            `json:"evaluations"`
-	Steps         int64          `json:"steps_total"`
-	StepsHist     []int          `json:"-"`
-	Outcomes      map[string]int `json:"outcomes"`
-	Strategies    map[string]int `json:"strategies"`
-	Faults        map[string]int `json:"fault_kinds_fired"`
-	Probes        map[string]int `json:"probes"`
-	Discards      map[string]int `json:"discards"`
-	Threads       map[string]int `json:"threads_hist"`
-	NumCPU        map[string]int `json:"numcpu_hist"`
-	Kinds         map[string]int `json:"trial_kinds"`
-	Cmds          map[string]int `json:"commands"`
-	Nontrivial    map[uint64]bool `json:"-"`
-	Traces        map[uint64]bool `json:"-"`
-	Partials      map[uint64]bool `json:"-"`
-	Samples       []json.RawMessage `json:"samples"`
-	KnownHits     map[string]int `json:"known_finding_hits"`
-	StepLimit     int            `json:"step_limit_runs"`
+	Trials      int               `json:"trials"`
+	Evaluations int               `json:"evaluations"`
+	Steps       int64             `json:"steps_total"`
+	StepsHist   []int             `json:"-"`
+	Outcomes    map[string]int    `json:"outcomes"`
+	Strategies  map[string]int    `json:"strategies"`
+	Faults      map[string]int    `json:"fault_kinds_fired"`
+	Probes      map[string]int    `json:"probes"`
+	Discards    map[string]int    `json:"discards"`
+	Threads     map[string]int    `json:"threads_hist"`
+	NumCPU      map[string]int    `json:"numcpu_hist"`
+	Kinds       map[string]int    `json:"trial_kinds"`
+	Cmds        map[string]int    `json:"commands"`
+	Nontrivial  map[uint64]bool   `json:"-"`
+	Traces      map[uint64]bool   `json:"-"`
+	Partials    map[uint64]bool   `json:"-"`
+	Samples     []json.RawMessage `json:"samples"`
+	KnownHits   map[string]int    `json:"known_finding_hits"`
+	StepLimit   int               `json:"step_limit_runs"`
 }
 
 func newStats() *Stats {
